@@ -20,6 +20,9 @@ class FormulaRecorder:
         self.fx = []
         self.active = False
         self.stack = []   # (frame id, node)
+        self.frames = {}  # frame id -> node (frames entered in this operation; last wins)
+        self.chain = None  # formula frames in the traceback of the last exception that
+                           # left an outermost formula frame: [[node, line], ...] outermost first
 
     def start(self):
         try:
@@ -59,6 +62,11 @@ class FormulaRecorder:
     def take(self):
         out, self.fx = self.fx, []
         self.stack = []
+        self.frames = {}
+        return out
+
+    def take_chain(self):
+        out, self.chain = self.chain, None
         return out
 
     # -- callbacks ---------------------------------------------------------
@@ -78,6 +86,7 @@ class FormulaRecorder:
         if node is None:
             return
         self.stack.append((id(frame), node))
+        self.frames[id(frame)] = node
         self.fx.append(["enter", node])
 
     def _on_return(self, code, offset, retval):
@@ -95,3 +104,16 @@ class FormulaRecorder:
         if self.stack and self.stack[-1][0] == id(frame):
             _, node = self.stack.pop()
             self.fx.append(["unwind", node, type(exc).__name__, frame.f_lineno])
+            if not self.stack:
+                # the interpreter's own account of the escaping exception: the formula
+                # frames its traceback lists (frames in a traceback are alive, so their
+                # ids are unambiguous among the frames entered in this operation)
+                chain, tb = [], exc.__traceback__
+                while tb is not None:
+                    f = tb.tb_frame
+                    if id(f.f_code) in self.codes and id(f) in self.frames:
+                        chain.append([self.frames[id(f)], tb.tb_lineno])
+                    tb = tb.tb_next
+                if not chain or chain[0][0] != node:
+                    chain.insert(0, [node, frame.f_lineno])   # (entry of this frame not added yet)
+                self.chain = chain
